@@ -245,6 +245,7 @@ func genUniverse(c *simrt.Choices, g genCfg) *Universe {
 		}
 		s.DurMS = []int{0, 0, 1, 5, 5}[c.Choose(5, "dur")]
 		s.InPlace = chance(c, 1, 2, "in-place")
+		s.BinNoChmod = chance(c, 1, 2, "bin-no-chmod")
 		if g.Features["trapterm"] && chance(c, 1, 3, "trap-term") {
 			s.TrapTerm = true
 			if s.DurMS < 5 {
